@@ -262,3 +262,34 @@ Definition ex_drain_check : bool :=
 
 Example C05_nonvacuous_drain : Forall wf_op ex_drain /\ ex_drain_check = true.
 Proof. split; [apply wf_opb_ok; vm_compute; reflexivity|vm_compute; reflexivity]. Qed.
+
+(* ---- clearly labelled side lemmas (not pinned theorems) ---- *)
+
+(* The LITERAL pair reading of "the recorded deadline is the one containing the next epoch" is false: a miner
+   created at epoch 0 (period start -2780) whose cron starts at epoch 3000 runs its first callback on time at
+   3039; afterwards current_deadline = 1 is right, but the recorded proving_period_start is still -2780 (the true
+   period started at 2980): advance_deadline rewrites it only when current_deadline wraps to 0.  The field is an
+   offset (used mod 2880), so this is not a defect; C05_deadline_recorded_after_tick is the true statement. *)
+Definition ex_stale : list op :=
+  [CreateMiner 1000 100 5] ++ repeat T0 3000 ++ [PreCommit 1000 (3, 0, 5) false] ++ repeat T0 39 ++ [Tcb (ci_ok (3, 0, 5))].
+Definition ex_stale_check : bool :=
+  let st := run (init 0 0 2) ex_stale in
+  (now st =? 3040) && bool_decide (1000 ∈ claims st) &&
+  match miners st !! 1000 with
+  | Some mi => m_active mi && (m_dl mi =? 1) && (dl_index (m_pps mi) (now st) =? 1) && (m_pps mi =? -2780) &&
+               (dl_period_start (m_pps mi) (now st) =? 2980) && negb (recorded_ok mi (now st))
+  | None => false end.
+Lemma C05_side_recorded_pair_literal_reading_refuted : Forall wf_op ex_stale /\ ex_stale_check = true.
+Proof. split; [apply wf_opb_ok; vm_compute; reflexivity|vm_compute; reflexivity]. Qed.
+
+(* miner_count is decremented once per FAILED CALLBACK, not once per deleted claim: two failing callbacks of one
+   miner in one tick drive it below the number of claims (reproduced on the real code, scenario "double") *)
+Definition ex_drift : list op :=
+  [CreateMiner 1000 100 5; PreCommit 1000 (3, 0, 5) false; EnrolET 1000 39] ++ repeat T0 39 ++
+  [Tick {| t_entry_fail := false; t_reward_fail := false; t_kpi_fail := false; t_market_fail := false;
+           t_cbs := [ci_f1 (3, 0, 5); ci_f1 (3, 0, 5)] |}].
+Definition ex_drift_check : bool :=
+  let st := run (init 0 0 2) ex_drift in
+  (miner_count st =? -1) && (Z.of_nat (length (elements (claims st))) =? 0).
+Lemma C05_side_miner_count_drift_witness : Forall wf_op ex_drift /\ ex_drift_check = true.
+Proof. split; [apply wf_opb_ok; vm_compute; reflexivity|vm_compute; reflexivity]. Qed.
